@@ -55,7 +55,17 @@ for _name, _sym in (("add", "+"), ("sub", "-"), ("mul", "*"), ("truediv", "/"), 
 # pools that only some families use: a mixed-type (object dtype) vector (C06), non-commutative elements (C05)
 EXTRA = {"obj": [1, "a", 2.5, "b", (1, 2)], "nc": [NC("a"), NC("b")],
          # printf-style templates with exactly one slot, and arguments for them (a one-element tuple is an argument too)
-         "tmpl": ["%s!", "<%s>", "%r|", "%5s"], "targ": ["x", "", ("a",), "long text"]}
+         "tmpl": ["%s!", "<%s>", "%r|", "%5s"], "targ": ["x", "", ("a",), "long text"],
+         # gap analysis (builder gA): element features no other pool has.
+         # mix: numbers that are equal (and hash-equal) ACROSS types side by side - Vector([1.5, 2, True]) is a <float> vector
+         # that keeps the raw int and bool, so a dtype "wider than its contents" and 1 == 1.0 == True in one vector
+         "mix": [1, 1.0, True, 2.5, 0, 0.0, -0.0, False, 2, 2.0],
+         # big: ints beyond 2**53 / 2**63 (not exactly representable as float, not a machine word)
+         "big": [2 ** 53 + 1, 10 ** 20, -(2 ** 63) - 1, 2 ** 64, 3],
+         # bytes: like str a scalar although iterable; b"ab" has as many items as a 2-element vector
+         "bytes": [b"ab", b"", b"%s|", b"\xff\x00"],
+         # datetimes and (again) timedeltas as element types of broadcast methods / properties
+         "dtm": [datetime.datetime(2020, 1, 31, 23, 59, 58), datetime.datetime(1999, 12, 31), datetime.datetime(2024, 2, 29, 0, 0, 0, 5)]}
 
 
 def pool(t):
